@@ -9,6 +9,13 @@ let rec int_of_pos (p : positive) : int =
   match p with XH -> 1 | XO q -> 2 * int_of_pos q | XI q -> 2 * int_of_pos q + 1
 let int_of_n (x : n) : int = match x with N0 -> 0 | Npos p -> int_of_pos p
 
+(* decimal strings beyond OCaml's 63-bit ints (capacities up to 2^64-1) *)
+let n_of_string (s : string) : n =
+  let ten = n_of_int 10 in
+  let acc = ref N0 in
+  String.iter (fun ch -> acc := N.add (N.mul ten !acc) (n_of_int (Char.code ch - 48))) s;
+  !acc
+
 let tokens (line : string) : string list =
   List.filter (fun s -> s <> "") (String.split_on_char ' ' line)
 
@@ -29,7 +36,7 @@ let c07 (lines : string list) =
     | None -> ()
     | Some (id, cap, ovh) ->
       let ops = List.rev ops in
-      let (rs, (((g, p), h), m)) = lru_observe (n_of_int cap) (n_of_int ovh) ops in
+      let (rs, (((g, p), h), m)) = lru_observe (n_of_string cap) (n_of_int ovh) ops in
       pr "CASE %s\n" id;
       List.iter (fun r -> match r with
         | RPut -> pr "PUT\n"
@@ -41,7 +48,7 @@ let c07 (lines : string list) =
     | l :: rest ->
       (match tokens l with
        | ["CASE"; id; "CAP"; cap; "OVH"; ovh] ->
-         flush_case hdr ops; go (Some (id, int_of_string cap, int_of_string ovh)) [] rest
+         flush_case hdr ops; go (Some (id, cap, int_of_string ovh)) [] rest
        | ["P"; k; sz; b] ->
          go hdr (Put (n_of_int (int_of_string k), n_of_int (int_of_string sz), n_of_int (int_of_string b)) :: ops) rest
        | ["G"; k] -> go hdr (Get (n_of_int (int_of_string k)) :: ops) rest
